@@ -174,7 +174,8 @@ def election_nballots(self: 'Election') -> 'int':
     modifies()
 
 
-@contract('droop.election.Election.prog', props=[])
+@contract('droop.election.Election.prog', props=[],
+          trusted='writes a progress mark to sys.stdout and flushes (console I/O is outside the subset); touches no election state')
 def election_prog(msg: 'str'):
     modifies()
 
